@@ -64,7 +64,14 @@ class Concretizer:
         if k == self.none_key:
             return None
         if k not in self._vals:
-            self._vals[k] = len(self._vals) + 1
+            n = len(self._vals) + 1
+            # a value the model makes falsy (truthy(v) false) is realised as a falsy number, distinct per value
+            falsy = z3.is_false(self.m.eval(sym.TRUTHY(t), model_completion=False)) if hasattr(self, 'm') else False
+            if falsy:
+                unused = [x for x in (0, '', (), frozenset(), b'') if not any(type(v) is type(x) and v == x for v in self._vals.values())]
+                self._vals[k] = unused[0] if unused else 0
+            else:
+                self._vals[k] = n
         return self._vals[k]
 
     def boolean(self, t):
